@@ -4,6 +4,7 @@ import (
 	"errors"
 
 	"github.com/alibaba/sentinel-golang/core/base"
+	"github.com/alibaba/sentinel-golang/util"
 	rt "github.com/alibaba/sentinel-golang/zzverif/verifrt"
 )
 
@@ -69,6 +70,16 @@ func VerifC12() {
 		failed        bool
 	}
 	rs := make([]res, n)
+	// OBS=1: an observer reads the clock and then finds the breaker still closed: it opened no earlier than that reading
+	obsClk, obsClosed := uint64(0), false
+	if rt.Param("OBS") != 0 {
+		rt.Spawn(func() {
+			c := util.CurrentTimeMillis()
+			if cb.CurrentState() == Closed {
+				obsClk, obsClosed = c, true
+			}
+		})
+	}
 	for i := 0; i < n; i++ {
 		i := i
 		isTry := true
@@ -134,6 +145,10 @@ func VerifC12() {
 		rt.Reach("c12.late")
 		if late {
 			rt.Assert(rt.LastClock() >= lis.openClk+uint64(retry), "after the breaker opened, a later request is admitted only after a full retry timeout")
+			if obsClosed {
+				rt.Reach("c12.observed-closed")
+				rt.Assert(rt.LastClock() >= obsClk+uint64(retry), "a later request is admitted only a full retry timeout after a moment at which the breaker was still seen closed")
+			}
 			// that request is the probe of a new half-open passage: whatever the racing callers left behind, it is the only one
 			ctx2 := base.NewEmptyEntryContext()
 			ctx2.Resource = base.NewResourceWrapper("r", base.ResTypeCommon, base.Outbound)
